@@ -98,13 +98,13 @@ theorem C10_error_class (L : Nat) (size : Int) :
     ErrorResponse — followed by ReadyForQuery only when it was a simple Query outside a
     discarded batch — and the session goes on with the NEXT item, whatever it is -/
 theorem C10_session_step (h : Handlers) (s : Sess) (t : UInt8) (size : Int) (rest : List Item)
-    (hw : s.wleft = none) (hi : s.items = .big t size true :: rest) :
+    (hw : s.wleft = none) (hi : s.inp.items = .big t size true :: rest) :
     stepCommand h s =
-      let s' := { s with items := rest, msg := [] }
-      let e := BMsg.error (errorBody (flatten (some (errSizeExceeded s.L size))))
+      let s' := { s with inp := { s.inp with items := rest, msg := [] } }
+      let e := BMsg.error (errorBody (flatten (some (errSizeExceeded s.inp.L size))))
       if t = ch 'Q' ∧ !s.discard then .cont { s' with out := .ready (ch 'I') :: e :: s.out }
       else .cont { s' with out := e :: s.out } := by
-  simp only [stepCommand, Sess.next, hi, handleOversize, errorCode, sendError, Sess.send, hw, afterWrite]
+  simp only [stepCommand, Inp.next, hi, handleOversize, errorCode, sendError, Sess.send, hw, afterWrite]
   by_cases hq : t = ch 'Q' ∧ (!s.discard) = true
   · simp [hq]
   · simp [hq]
